@@ -291,12 +291,19 @@ class CSSNamespaceRule(cssrule.CSSRule):
                 prefix = self._tokenvalue(prefixtoken)
         # update seq
         for i, x in enumerate(self._seq):
-            if x == self._prefix:
+            if x.type == 'prefix':
                 self._seq[i] = (prefix, 'prefix', None, None)
                 break
         else:
-            # put prefix at the beginning!
-            self._seq[0] = (prefix, 'prefix', None, None)
+            # no prefix item yet (e.g. parsed from ``@namespace "uri";``):
+            # put the prefix directly before the namespaceURI item, or first
+            # if there is no URI yet, without overwriting anything
+            for i, x in enumerate(self._seq):
+                if x.type == 'namespaceURI':
+                    break
+            else:
+                i = 0
+            self._seq.insert(i, prefix, 'prefix')
 
         # set new prefix
         self._prefix = prefix
